@@ -15,6 +15,11 @@
 //	             flow.LoadRulesOfResource with a complete new rule) between two requests
 //	mode "gapi": the gate of mode "gate" around api.Entry on a resource with a Direct + Throttling rule; the schedule
 //	             also says when the rule is replaced (-1), possibly while requests are parked inside the checker
+//	mode "list": SEVERAL throttling rules on one resource (loaded in list order); requests arrive sequentially through
+//	             api.Entry under the virtual nanosecond clock, which every Sleep the flow slot asks for advances - a
+//	             request reaches the next rule of the list that much later.  Recorded per request: arrival, batch,
+//	             decision, the TOTAL it was made to sleep (sum of the Sleep calls of that api.Entry call) and the
+//	             position in the list of the rule its rejection names
 //	mode "chk":  sequential calls of DoCheck on one checker under the virtual nanosecond clock, every call with its
 //	             own threshold argument (what WarmUp / MemoryAdaptive calculators do to the checker)
 //
@@ -55,6 +60,8 @@ func main() {
 			chk(s, tr, clk)
 		case "gapi":
 			gapi(s, tr, clk)
+		case "list":
+			list(s, tr, clk)
 		default:
 			gate(s, tr, clk)
 		}
@@ -355,6 +362,76 @@ func gapi(s hx.M, tr *hx.Trace, clk *hx.VClock) {
 	sc.Close()
 	tr.Emit(hx.M{"op": "end"})
 	clk.TakeSleeps()
+	_, _ = flow.LoadRulesOfResource(res, nil)
+}
+
+// list mode: "rules" = the Direct + Throttling rules of the resource in list order (threshold thr_num/thr_den per
+// interval_ms, queueing limit maxq_ms), loaded together through flow.LoadRules ("via": "all") or
+// flow.LoadRulesOfResource; "reqs" = [{gap, batch}]: the next request arrives gap ns after the previous call returned
+// (the clock has then advanced by every Sleep of that call).  Times in the trace are ns relative to the scenario
+// origin; the scenario ends early rather than leave the 2^31 ns the trace spec can count.
+func list(s hx.M, tr *hx.Trace, clk *hx.VClock) {
+	trn := hx.Int(s, "tr")
+	res := fmt.Sprintf("c10l_%d", trn)
+	origin := hx.BaseMs(10000) * 1e6
+	clk.SetNs(origin)
+	var rules []*flow.Rule
+	var evs []interface{}
+	for j, x := range s["rules"].([]interface{}) {
+		m := hx.M(x.(map[string]interface{}))
+		n, d := hx.Int(m, "thr_num"), hx.Int(m, "thr_den")
+		rules = append(rules, &flow.Rule{ID: fmt.Sprintf("c10l_%d_%d", trn, j+1), Resource: res, TokenCalculateStrategy: flow.Direct,
+			ControlBehavior: flow.Throttling, Threshold: float64(n) / float64(d),
+			StatIntervalInMs: uint32(hx.Int(m, "interval_ms")), MaxQueueingTimeMs: uint32(hx.Int(m, "maxq_ms"))})
+		evs = append(evs, hx.M{"si": hx.Int(m, "interval_ms") * 1e6, "maxq": hx.Int(m, "maxq_ms") * 1e6, "tn": n, "td": d})
+	}
+	var err error
+	if hx.Str(s, "via") == "all" {
+		_, err = flow.LoadRules(rules)
+	} else {
+		_, err = flow.LoadRulesOfResource(res, rules)
+	}
+	if err != nil {
+		hx.Fatal("scenario %d: load rules: %v", trn, err)
+	}
+	if len(flow.GetRulesOfResource(res)) != len(rules) {
+		hx.Fatal("scenario %d: not every rule was accepted", trn)
+	}
+	tr.Emit(hx.M{"op": "newl", "tr": trn, "tol": 1, "list": evs})
+	for i, x := range s["reqs"].([]interface{}) {
+		q := x.(map[string]interface{})
+		clk.AdvanceNs(hx.Int(q, "gap"))
+		clk.TakeSleeps()
+		arr := clk.NowNs() - origin
+		if arr > 1_950_000_000 {
+			break
+		}
+		batch := hx.Int(q, "batch")
+		tr.Emit(hx.M{"op": "invl", "p": i + 1, "arr": arr, "b": batch})
+		e, b := api.Entry(res, api.WithBatchCount(uint32(batch)))
+		var w int64
+		for _, d := range clk.TakeSleeps() {
+			w += d
+		}
+		if b != nil {
+			by := 0
+			if r, ok := b.TriggeredRule().(*flow.Rule); ok && r != nil {
+				for j, x := range rules {
+					if x == r {
+						by = j + 1
+					}
+				}
+				if by == 0 { // names a rule that is not in the list: an observable, judged by the trace spec
+					by = -1
+				}
+			}
+			tr.Emit(hx.M{"op": "retl", "p": i + 1, "res": "reject", "w": w, "by": by})
+		} else {
+			tr.Emit(hx.M{"op": "retl", "p": i + 1, "res": "pass", "w": w, "by": 0})
+			e.Exit()
+		}
+	}
+	tr.Emit(hx.M{"op": "endl"})
 	_, _ = flow.LoadRulesOfResource(res, nil)
 }
 
